@@ -2,6 +2,7 @@ import JediModel.Proto
 import JediModel.Model.Refactor
 import JediModel.Model.ExtractIO
 import JediModel.Model.NonExtractable
+import JediModel.Model.ExtractOut
 import JediModel.Gen.C06
 open Lean Proto JediModel.Text JediModel.Tree JediModel.Refactor
 
@@ -41,6 +42,22 @@ partial def parseSel : List Json → JediModel.NonExtractable.Sel
     | "scope" => .scope (parseSel (arr j "c")) (parseSel rest)
     | _ => .other (parseSel (arr j "c")) (parseSel rest)
 
+/-- a list of parso nodes as the forest of `ExtractOut` (json: {"k": "name", "v": value, "d": is_definition} |
+{"k": "leaf"} | {"k": "attr", "c": [...]} | {"k": "scope", "h": [children[:-1]], "b": [children[-1:]]} |
+{"k": "node", "c": [...]}) -/
+partial def parseForest : List Json → JediModel.ExtractOut.Forest
+  | [] => .done
+  | j :: rest =>
+    match str j "k" with
+    | "name" => .name (str j "v") (bool j "d") (parseForest rest)
+    | "leaf" => .leaf (parseForest rest)
+    | "attr" => .attr (parseForest (arr j "c")) (parseForest rest)
+    | "scope" => .scope (parseForest (arr j "h")) (parseForest (arr j "b")) (parseForest rest)
+    | _ => .node (parseForest (arr j "c")) (parseForest rest)
+
+def outWalk : JediModel.ExtractOut.Walk :=
+  ⟨JediModel.Gen.C06.nonGlobalSkipsAttributeTrailer, JediModel.Gen.C06.nonGlobalPrunesScopeBody⟩
+
 def checkProg : Option JediModel.NonExtractable.Prog :=
   JediModel.NonExtractable.Prog.decode JediModel.Gen.C06.checkAlwaysRefused JediModel.Gen.C06.checkJumpKeywords
     JediModel.Gen.C06.checkLoopBranch JediModel.Gen.C06.checkScopeBranch JediModel.Gen.C06.checkOtherBranch
@@ -71,6 +88,15 @@ def handle (j : Json) : Json :=
       { value := str o "value", isDef := bool o "is_def", augTarget := bool o "aug", outer := bool o "outer" }
     let st := JediModel.ExtractIO.findInputsOutputs ⟨JediModel.Gen.C06.extractReadsAugTarget⟩ occs
     jobj [("inputs", jarr (st.inputs.map jstr)), ("outputs", jarr (st.outputs.map jstr))]
+  | "needed" =>
+    let sibs : List JediModel.ExtractOut.Sibling := (arr j "sibs").map fun x =>
+      { before := bool x "before", tree := parseForest (arr x "tree") }
+    let rv := strs j "rv"
+    jobj [("needed", jarr ((JediModel.ExtractOut.needed outWalk sibs rv).map jstr)),
+          ("returned", jarr ((JediModel.ExtractOut.returnVariables outWalk sibs rv).map jstr)),
+          ("names", jarr ((sibs.flatMap fun x => JediModel.ExtractOut.names outWalk x.tree).map fun o =>
+            jarr [jstr o.1, jbool o.2])),
+          ("reads_later", jarr ((JediModel.ExtractOut.readsLater sibs).map jstr))]
   | "nonextractable" =>
     match checkProg with
     | none => jobj [("error", jstr "the translated _check_for_non_extractables does not decode")]
